@@ -488,6 +488,22 @@ func (s *simRun) runProg(p int, src, pt key.TargetID) {
 			}
 		case 'S':
 			e.ModifySP(info.ModifySP{Key: "verif-sp", Source: src, Amount: c.a})
+		case 'Z':
+			// a kit that works on the lists the engine hands out as if they were its own (they must be): overwrites
+			// every entry, appends, reslices — as target.Retarget does in place with its Targets argument
+			for _, l := range [][]key.TargetID{e.Enemies(), e.Characters(), e.Neutrals()} {
+				for i := range l {
+					l[i] = l[len(l)-1]
+				}
+				l = append(l, 99)
+				_ = l
+			}
+			// and the engine's own retarget over the engine's own list, with a filter that drops the first unit
+			first := key.TargetID(-1)
+			if en := e.Enemies(); len(en) > 0 {
+				first = en[0]
+			}
+			_ = e.Retarget(info.Retarget{Targets: e.Enemies(), Filter: func(t key.TargetID) bool { return t != first }, IncludeLimbo: true, DisableRandom: true})
 		}
 	}
 }
